@@ -256,7 +256,13 @@ def judge(case, obs, replies):
             corr(f"{name}: {key}, model vs implementation", mm, impl)
     thrs = list(thr.values())
     vals = [x for row in obs["conc"] + obs["disc"] for x in row if x is not None]
-    offb = dm["family"] == "dyadic" or all(abs(v - t) > 1e-9 for v in vals for t in thrs)
+    # the model's exact run and the implementation's doubles agree on which side of a threshold a value lies when either the value is
+    # exact in binary64 (dyadic data whose largest criterion range is a power of two: every discordance is then a dyadic fraction) or
+    # it is not within rounding of a threshold
+    A_ = dm["matrix"]
+    rng_max = max((max(r[j] for r in A_) - min(r[j] for r in A_)) for j in range(len(dm["objectives"])))
+    exact_div = dm["family"] == "dyadic" and rng_max > 0 and math.frexp(rng_max)[0] == 0.5
+    offb = exact_div or all(abs(v - t) > 1e-9 for v in vals for t in thrs)
     if name == "ELECTRE1":
         if graphs.get("outrank") != obs["outrank"] or graphs.get("kernel") != obs["values"]:
             corr("ELECTRE1: outrank/kernel recomputed by the model from the implementation's concordance/discordance", graphs, [obs["outrank"], obs["values"]])
